@@ -65,6 +65,80 @@ func (e *Engine) doCall(st *State, fr *Frame, res ssa.Value, c *ssa.CallCommon, 
 				e.havocCall(st, fr, res, "invoke "+c.Method.FullName(), c.Signature(), false, append([]Val{recv}, args...))
 				return false
 			}
+			// every implementer declared pure: one deterministic function symbol of receiver and
+			// arguments instead of one path per dynamic type
+			allPure := true
+			for _, im := range impls {
+				sel := e.W.Prog.MethodSets.MethodSet(im).Lookup(c.Method.Pkg(), c.Method.Name())
+				var f *ssa.Function
+				if sel != nil {
+					f = e.W.Prog.MethodValue(sel)
+				}
+				if f == nil || e.W.ByFunc[f] == nil || !e.W.ByFunc[f].Pure {
+					allPure = false
+					break
+				}
+			}
+			if !allPure && e.inModuleIface(c.Value.Type()) {
+				// no implementer writes memory (type-based write sets all empty): also a deterministic reader
+				m := map[string]bool{}
+				e.callMods(c, m, map[*ssa.Function]bool{})
+				if len(m) == 0 {
+					allPure = true
+				}
+			}
+			if allPure {
+				for _, a := range c.Args {
+					args = append(args, e.get(st, fr, a))
+				}
+				e.nilCheck(st, tag, c.Pos(), "invoke")
+				e.Havocked["invoke "+c.Method.FullName()+" (pure in every implementer: one function symbol)"]++
+				rs := e.ufResults(st, "invoke$"+c.Method.FullName(), c.Signature(), append([]Val{recv}, args...))
+				// tie the symbol to each implementer that has a postcondition: for that dynamic
+				// type the result is the implementer's (pure) function, with its contract
+				for _, im := range impls {
+					sel := e.W.Prog.MethodSets.MethodSet(im).Lookup(c.Method.Pkg(), c.Method.Name())
+					if sel == nil {
+						continue
+					}
+					f := e.W.Prog.MethodValue(sel)
+					fc := e.W.ByFunc[f]
+					if f == nil || fc == nil || !fc.Pure || len(fc.Ensures) == 0 || fc.Opts["opaque"] != "" {
+						continue
+					}
+					guard := Eq(tag, IntC(typeID(im)))
+					sub := st.clone()
+					sub.assume(guard)
+					if _, isPtr := im.Underlying().(*types.Pointer); isPtr {
+						sub.assume(Ne(recv[1], IntC(0)))
+					}
+					cargs := append([]Val{e.unbox(sub, im, recv[1])}, args...)
+					irs := e.ufResults(sub, "pure$"+shortFn(f), f.Signature, cargs)
+					var a, b Val
+					for _, r := range rs {
+						a = append(a, r...)
+					}
+					for _, r := range irs {
+						b = append(b, r...)
+					}
+					if len(a) != len(b) {
+						continue
+					}
+					e.fact(st, Implies(guard, valEq(a, b)))
+					pre := sub.heap.clone()
+					savedMode := e.Mode
+					e.Mode = ModeSpec
+					for _, cl := range fc.Ensures {
+						t := e.evalClause(sub, fc, cl, append(append([]Val{}, cargs...), irs...), pre)
+						e.Mode = savedMode
+						e.fact(st, Implies(And(guard, Ne(recv[1], IntC(0))), t))
+						e.Mode = ModeSpec
+					}
+					e.Mode = savedMode
+				}
+				e.bind(fr, res, rs)
+				return false
+			}
 			alts := []*Term{Eq(tag, IntC(0))}
 			var none []*Term
 			for _, im := range impls {
